@@ -17,7 +17,9 @@ class Prog:
         self.segments = []            # dicts: type,flags,align,vaddr,paddr,members (user-section numbers, 0-based), nested_in
 
 
-def gen_prog(rng, cfg=None, nsec=None, nseg=None, allow_nested=True, allow_compr_nocreate=False, small=False, nonalloc_members=False):
+def gen_prog(rng, cfg=None, nsec=None, nseg=None, allow_nested=True, allow_compr_nocreate=False, small=False, nonalloc_members=False, under_aligned=None):
+    if under_aligned is None:
+        under_aligned = rng.random() < 0.3
     p = Prog()
     p.cfg = cfg or rng.choice(CFGS)
     w = 32 if p.cfg[0] == "32" else 64
@@ -150,7 +152,12 @@ def gen_prog(rng, cfg=None, nsec=None, nseg=None, allow_nested=True, allow_compr
         for f in ("type", "flags", "align", "vaddr", "paddr"):
             p.lines.append("segset %d %s %d" % (j, f, g[f]))
         for m in g["members"]:
-            p.lines.append("segaddsec %d %d" % (j, m + 2))
+            if under_aligned and rng.random() < 0.3:
+                # add_section_index( index, alignment ) with an alignment below the section's own: the segment's
+                # p_align may then be smaller than a member's sh_addralign until save() raises it
+                p.lines.append("segadd %d %d %d" % (j, m + 2, rng.choice([0, 1, 2, 4])))
+            else:
+                p.lines.append("segaddsec %d %d" % (j, m + 2))
     return p
 
 
@@ -190,7 +197,7 @@ def prog_from_lines(lines):
             p.segments.append(dict(type=0, flags=0, align=0, vaddr=0, paddr=0, members=[], explicit=False, nested_in=None))
         elif t[0] == "segset" and int(t[1]) < len(p.segments):
             p.segments[int(t[1])][t[2]] = int(t[3])
-        elif t[0] == "segaddsec" and int(t[1]) < len(p.segments):
+        elif t[0] in ("segaddsec", "segadd") and int(t[1]) < len(p.segments):
             p.segments[int(t[1])]["members"].append(int(t[2]) - 2)
     if p.ctor == "compr" and not p.created:
         p.ctor = "compr-nocreate"
